@@ -82,11 +82,18 @@ def obs (d : DState) : DState × String :=
 def showReply : Reply → String
   | .ok => "ok" | .err => "err:ValueError" | .unmodelled => "unmodelled" | .id n => s!"id={n}" | .raised => "err"
 
+/-- A failing iteration `f ≥ 100` stands for "iteration `f - 100`, after `set_complete()`". -/
 def parseSpecs (durs fails : String) : Option (List CmdSpec) := do
   let ds ← natList durs
   let fs ← intList fails
   if ds.length != fs.length then none
-  else some ((ds.zip fs).map (fun p => ⟨p.1, if p.2 < 0 then none else some p.2.toNat⟩))
+  else some ((ds.zip fs).map (fun p => ⟨p.1, if p.2 < 0 then none else some (p.2.toNat % 100)⟩))
+
+/-- Indices of the commands that complete before they raise. -/
+def parseCompleteFirst (fails : String) : List Nat :=
+  match intList fails with
+  | some fs => (List.range fs.length).filter (fun k => fs.getD k 0 ≥ 100)
+  | none => []
 
 def parseOverlaps (t : String) : Option (List (List Nat)) :=
   if t = "-" then some [] else (t.splitOn ";").mapM natList
@@ -107,11 +114,13 @@ def step (d : DState) (line : String) : DState × String :=
     match parseSpecs durs fails, parseOverlaps ovl, variant.toList with
     | some cs, some os, [a, b] =>
       if (a = '0' || a = '1') && (b = '0' || b = '1') then
-        ({ s := { cfg := { cmds := cs, overlaps := os, fixCancel := a = '1', fixInstr := b = '1', fixStop := false } } }, "ok")
+        ({ s := { cfg := { cmds := cs, overlaps := os, fixCancel := a = '1', fixInstr := b = '1', fixStop := false,
+                           completeFirst := parseCompleteFirst fails } } }, "ok")
       else (d, "bad-op")
     | some cs, some os, [a, b, c] =>
       if (a = '0' || a = '1') && (b = '0' || b = '1') && (c = '0' || c = '1') then
-        ({ s := { cfg := { cmds := cs, overlaps := os, fixCancel := a = '1', fixInstr := b = '1', fixStop := c = '1' } } }, "ok")
+        ({ s := { cfg := { cmds := cs, overlaps := os, fixCancel := a = '1', fixInstr := b = '1', fixStop := c = '1',
+                           completeFirst := parseCompleteFirst fails } } }, "ok")
       else (d, "bad-op")
     | _, _, _ => (d, "bad-op")
   | ["req", k] => match k.toNat? with | some k => apply d (.req k) | none => (d, "bad-op")
